@@ -13,6 +13,12 @@
    instance; reloaded projection / getters / query answers = those of the original; second file byte-identical.
    Also: the file-name resolution of ASerializable (container / prefix) on the model and on the real library,
    and the grid exchange formats that can be written and read.
+5. histories (classes with a Db part): TLC (MC_NeutralHist) explores a small state machine over two objects of the same
+   class and width -- steps: delete a column, add a column, delete + add, WRITE one of the objects -- checks in every
+   state the law "what the writer collects from the object (through its UIDs) = its abstract content", and emits every
+   complete history with the expected file of each write; nf_run replays the histories IN ONE PROCESS (so that whatever
+   the library keeps between two writes is kept) and every file written is compared with the expected one: the file
+   depends on the current content only, not on the history of the object nor on what was written before.
 """
 import json, os, shutil, random, itertools, collections, subprocess, hashlib, time
 import vlib
@@ -257,7 +263,115 @@ def model_and_cases(ck, classes, level, per_class, rng, tag, workers):
         raise Broken("MC_NeutralFile emitted %d cases for %d picks" % (len(res.emitted), len(picks)))
     cases = sorted(res.emitted, key=lambda e: e["id"])
     log("[C08] %s: %d structures, %d instances checked on the model by TLC in %.1fs" % (tag, len(shapes), len(cases), res.wall))
-    return cases, res, exhaustive, sizes
+    return cases, res, exhaustive, sizes, shapes
+
+
+HIST_CLASSES = ["Db", "DbGrid", "DbLine", "DbGraphO"]
+
+
+def history_cases(ck, shapes, level, depth, nbase, rng, workers):
+    """histories explored by TLC (MC_NeutralHist): per class with a Db part, nbase pairs of instances of one structure"""
+    w = ck.work
+    picks = []
+    for c in HIST_CLASSES:
+        shs = [sh for sh in shapes if sh["c"] == c and sh.get("hist")]
+        if not shs:
+            raise Broken("no structure of class %s can start a history" % c)
+        rng.shuffle(shs)
+        for k in range(nbase):
+            sh = shs[k % len(shs)]
+            d = [rng.randrange(r) for r in sh["rad"]]
+            d2 = [rng.randrange(r) for r in sh["rad"]]
+            picks.append({"c": c, "s": sh["s"], "d": d, "d2": d2})
+    pp = os.path.join(w, "hpicks.ndjson")
+    vlib.write_ndjson(pp, picks)
+    cfg = os.path.join(w, "hist.cfg")
+    open(cfg, "w").write("SPECIFICATION Spec\nCONSTANTS\n Level = %d\n Repaired = %s\n Depth = %d\nINVARIANT Law\nCONSTRAINT Emit\n"
+                         "CHECK_DEADLOCK FALSE\n" % (level, repaired_tla(), depth))
+    res = vlib.run_tlc("MC_NeutralHist", cfg, workers=workers, env={"PICKS": pp, "JAVA_TOOL_OPTIONS": TLC_JAVA}, timeout=3000, heap="8g")
+    if res.violation:
+        raise Broken("MC_NeutralHist: the law 'the file written depends on the current content only' does not hold on the model "
+                     "(or the model run failed):\n" + res.violation)
+    hists = sorted(res.emitted, key=lambda e: (e["base"], json.dumps(e["steps"])))
+    for i, h in enumerate(hists):
+        h["id"] = i + 1
+    if not hists:
+        raise Broken("MC_NeutralHist emitted no history")
+    log("[C08] histories: %d pairs of objects, %d states, law checked by TLC in every state, %d complete histories emitted in %.1fs"
+        % (len(picks), res.distinct, len(hists), res.wall))
+    return hists, res, picks
+
+
+def ops_signature(steps):
+    return ".".join("%s%d" % (st["op"][0], st["i"]) for st in steps)
+
+
+def run_histories(ck, hists, asan=False):
+    exe = build_asan_harness("nf_run") if asan else vlib.build_harness("nf_run")
+    w = ck.work
+    cp, op = os.path.join(w, "hcases.ndjson"), os.path.join(w, "hobs.ndjson")
+    vlib.write_ndjson(cp, [{"id": h["id"], "c": "Hist", "cls": h["c"], "o1": h["o1"], "o2": h["o2"],
+                            "steps": [{k: v for k, v in st.items() if k in ("op", "i", "k", "name", "vals")} for st in h["steps"]]}
+                           for h in hists])
+    tmp = os.path.join(w, "htmp")
+    os.makedirs(tmp, exist_ok=True)
+    vlib.run_harness(exe, [cp, op, tmp], timeout=6000, env=ASAN_ENV if asan else None)
+    obs = {o["id"]: o for o in vlib.read_ndjson(op)}
+    if len(obs) != len(hists):
+        raise Broken("nf_run reported %d histories out of %d" % (len(obs), len(hists)))
+    return obs
+
+
+def judge_histories(ck, hists, obs):
+    """every file written in the course of a history = the file that the specification derives from the content at that moment"""
+    nwrites = naged = nbad = 0
+    not_rt = 0
+    for h in hists:
+        ob = obs[h["id"]]
+        c = h["c"]
+        sig = ops_signature(h["steps"])
+        replay = {"class": c, "object_1": h["o1"], "object_2": h["o2"], "steps": h["steps"], "observed": ob,
+                  "how": "nf_run builds the two objects, applies the steps (del = deleteColumnByColIdx(k-1), add = addColumns(vals, name), "
+                         "write = dumpToNF) in one process; 'lines' of a write step = the file expected from the content 'o' at that step"}
+        found = []
+        if "crash" in ob:
+            found.append({"class": c, "kind": "history-crash", "signal": ob["crash"], "ops": sig})
+        elif "exception" in ob:
+            found.append({"class": c, "kind": "history-exception", "what": ob["exception"][:80], "ops": sig})
+        elif not ob.get("built"):
+            raise Broken("nf_run could not build the objects of a history of %s: %s" % (c, json.dumps(h["o1"])[:400]))
+        else:
+            wsteps = [st for st in h["steps"] if st["op"] == "write"]
+            if len(wsteps) != len(ob["writes"]):
+                raise Broken("history %d: %d writes replayed for %d write steps" % (h["id"], len(ob["writes"]), len(wsteps)))
+            for j, (st, wr) in enumerate(zip(wsteps, ob["writes"])):
+                nwrites += 1
+                naged += 1 if st["aged"] else 0
+                not_rt += 0 if st["rt"] else 1
+                base = {"class": c, "ops": sig, "write": j + 1, "aged": bool(st["aged"])}
+                # the edits of the model and those of the library must agree on the content (binding of the steps)
+                for f in top_fields(deep_diff(st["o"], wr["p"])):
+                    found.append(dict(base, kind="history-content", field=f))
+                if not wr.get("dump"):
+                    found.append(dict(base, kind="history-dump-failed", field=""))
+                    continue
+                sd = stream_diff(st["lines"], wr["toks"])
+                if sd and not sd["layout_only"]:
+                    found.append(dict(base, kind="history-stream", field="", detail=sd))
+                if not wr.get("reload"):
+                    if st["rt"]:
+                        found.append(dict(base, kind="history-reload-failed", field=""))
+                else:
+                    for f in top_fields(deep_diff(wr["p"], wr["p1"])):
+                        found.append(dict(base, kind="history-reload", field=f))
+        for rec in found:
+            ck.disagree(rec, replay)
+        nbad += 1 if found else 0
+        ck.add("traces_validated_against_impl")
+        ck.add("evaluations", max(1, len([st for st in h["steps"] if st["op"] == "write"])))
+        if found:
+            ck.add("cases_disagreeing")
+    return nwrites, naged, nbad, not_rt
 
 
 def run_real(ck, cases, tag, cfgs=(0,), asan=False):
@@ -406,18 +520,29 @@ def _run(ck, tier):
         classes, level, per_class = QUICK_CLASSES + MORE_CLASSES + EXCHANGE, 1, 80
     else:
         classes, level, per_class = QUICK_CLASSES + MORE_CLASSES + EXCHANGE, 2, 1000
-    cases, res, exhaustive, sizes = model_and_cases(ck, classes, level, per_class, rng, "main", workers)
+    cases, res, exhaustive, sizes, shapes = model_and_cases(ck, classes, level, per_class, rng, "main", workers)
     # thorough tier: the real library runs under AddressSanitizer / UBSan (memory errors of a round trip are crashes)
     asan = tier == "thorough" and use_asan()
     obs = run_real(ck, cases, "main", cfgs=(0, 0, 0, 1, 2, 0, 3), asan=asan)
     ck.cov["sanitizer_build"] = asan
     per_class, model_mis, confirmed, unconfirmed, layout_only = judge(ck, cases, obs)
     npath = path_cases(ck)
+    # histories: the write as a step of a state machine (in one process, after the round trips above)
+    hdepth, hbase = (4, 3) if tier == "quick" else (4, 4)
+    hists, hres, hpicks = history_cases(ck, shapes, level, hdepth, hbase, rng, workers)
+    hobs = run_histories(ck, hists, asan=asan)
+    nwrites, naged, nhbad, not_rt = judge_histories(ck, hists, hobs)
+    ck.cov["histories"] = {"pairs_of_objects": len(hpicks), "depth": hdepth, "states": hres.distinct, "complete_histories": len(hists),
+                           "writes_compared": nwrites, "writes_of_objects_whose_uids_are_not_1_to_n": naged,
+                           "histories_disagreeing": nhbad, "writes_that_the_model_does_not_read_back": not_rt,
+                           "distinct_step_patterns": len({ops_signature(h["steps"]) for h in hists})}
+    if naged == 0:
+        raise Broken("no history wrote an object whose UIDs differ from those of a fresh object")
     for c in classes:
         if per_class[c] == 0:
             raise Broken("no instance of class %s was explored" % c)
-    ck.cov["states"] = res.distinct
-    ck.cov["transitions"] = max(res.generated - len(cases), 0)
+    ck.cov["states"] = res.distinct + hres.distinct
+    ck.cov["transitions"] = max(res.generated - len(cases), 0) + hres.generated
     ck.cov["instances_per_class"] = dict(per_class)
     ck.cov["abstract_domain_size_per_class"] = sizes
     ck.cov["domain_exhausted_per_class"] = exhaustive
